@@ -106,6 +106,8 @@ def check(model: Model, tier: str):
         if model.has_func(fs):
             obs += rule_scale_free(model, fs)
     obs += rule_residual_unprec(model)
+    from ..normguard import rule_train_init
+    obs += rule_train_init(model, "solvers._amen_solve_python")
     obs += rule_arnoldi_seed(model)
     fs = [model.func(a) for a in ANCHORS]
     exc = {
